@@ -50,6 +50,8 @@ def run_one(m, args):
                                cwd=scratch, env=env, capture_output=True, text=True, timeout=900)
             suite = "pass" if p.returncode == 0 else "FAIL"
         env = dict(os.environ, VERIF_EQSIG_PATH=scratch, VERIF_SEED=str(args.seed), VERIF_PROCS=str(args.procs))
+        if args.no_corpus:
+            env["VERIF_NO_CORPUS"] = "1"
         env["VERIF_EVIDENCE_DIR"] = os.path.join(scratch, "evidence")
         env["VERIF_REPLAY_DIR"] = os.path.join(scratch, "replays")
         props = m["prop"] if isinstance(m["prop"], list) else [m["prop"]]
@@ -75,6 +77,7 @@ def main():
     ap.add_argument("--procs", type=int, default=4)
     ap.add_argument("--seed", type=int, default=1)
     ap.add_argument("--tier", default="quick")
+    ap.add_argument("--no-corpus", action="store_true", help="skip the regression corpus: the generated search alone must catch the mutant")
     args = ap.parse_args()
     import mutants
     ms = mutants.MUTANTS
